@@ -495,6 +495,11 @@ func (s *Service) Connect(ctx context.Context, info []byte) (p2p.Peer, error) {
 
 	if exists := s.peers.addPeer(streamlibp2p.Conn(), p); exists {
 		s.logger.Warn("peer already exists", "peer", p)
+		if _, registered := s.peers.getPeer(addrInfo.ID); !registered {
+			// the connection closed during the handshake: nothing was registered,
+			// so the caller must not be told that the peer is connected
+			return p2p.Peer{}, p2p.ErrPeerNotFound
+		}
 	}
 
 	s.host.Peerstore().AddAddrs(addrInfo.ID, addrInfo.Addrs, peerstore.PermanentAddrTTL)
